@@ -764,7 +764,7 @@ def replay_history(history, rec):
 
 
 def tasks(tier):
-    ts = [Task(g, _run_a, quick=16 * 1500, thorough=16 * 200000, group=g)
+    ts = [Task(g, _run_a, quick=16 * 1500, thorough=16 * 40000, group=g)
           for g in A_PROPS]
     ts.append(Task('msbuild_history', _run_b, quick=16 * 6,
                    thorough=16 * 60))
